@@ -7,7 +7,9 @@ def register_all(chk):
         "Unbounded deductive proof (Verus/Z3) over the text of weighted_alias.rs extracted from /repo on this run: `new` has its complete "
         "error/Ok contract and establishes table_ok (mass conservation per index); `weights()` returns the input exactly; `sample` returns "
         "pick(column, threshold) with non-zero weight; lemma_alias_exact counts exactly len*w[i] of the len*sum (column,threshold) pairs for "
-        "index i. One instantiation per integer weight type. Float weights are not covered.")
+        "index i. One instantiation per integer weight type. Float weights are not covered. "
+        "The range contract the proof assumes for rand's Uniform<int>::new/sample is discharged by Kani against rand's real code for the 8/16-bit types.",
+        verus=True, kani=True)
     chk.contract_property(
         "C09", "WeightedTreeIndex stays consistent with its weight list under any update history",
         "Unbounded deductive proof (Verus/Z3) over the text of weighted_tree.rs extracted from /repo on this run: the representation invariant "
